@@ -93,6 +93,24 @@ class Ctx(object):
         self.expect_outs = None   # tv mode: label -> out values of the plain run
         self.explorer = None
 
+    def determined(self):
+        """context manager: symbolic branch conditions are decided by the declared input assumptions (no forking)"""
+        ctx = self
+
+        class _Dt(object):
+            def __enter__(self_d):
+                if ctx.sym:
+                    from . import state
+                    self_d.old = state.S.explorer
+                    state.S.explorer = state.AssumptionDecider(ctx.assumptions)
+
+            def __exit__(self_d, *a):
+                if ctx.sym:
+                    from . import state
+                    state.S.explorer = self_d.old
+                return False
+        return _Dt()
+
     # ------------------------------------------------------------------ groups
     def group(self, label):
         """obligations created inside the block are detailed (symbolic) parts of ONE claim that the concrete mode checks under
